@@ -436,6 +436,14 @@ decreasing_by
   have : xs.length ≠ 0 := by simpa using hx
   omega
 
+/-- a triplet line `row col value` with 1-based indices and a natural-number value -/
+def printTripLine (t : Trip Nat) : List Char :=
+  natDigits (t.row + 1) ++ [' '] ++ natDigits (t.col + 1) ++ [' '] ++ natDigits t.val ++ ['\n']
+
+/-- a well-formed file of SuperLU's triplet format: `n nnz`, then one line per entry, any order -/
+def printTriple (n : Nat) (ts : List (Trip Nat)) : List Char :=
+  natDigits n ++ [' '] ++ natDigits ts.length ++ ['\n'] ++ ts.flatMap printTripLine
+
 /-- rendering of a value descriptor, e.g. `(1P,4E20.12)` -/
 def renderFloatFmt (scale : Option (Int × Bool)) (k : Nat) (letter : Char) (w d : Nat) : List Char :=
   let sgn (z : Int) : List Char := if z < 0 then '-' :: natDigits z.natAbs else natDigits z.natAbs
